@@ -22,8 +22,9 @@ Print Assumptions C49_dowild_total.
 
 (* wildmatch as gitignore calls it (flags = 0) accepts exactly the texts the
    declarative glob denoted by the pattern matches: every pattern of the
-   fragment  literal | \c | ? | * | ** | [set] | [!set] | [^set]  (glob_of p = Some g),
-   every text.  The abort codes and the fast-forward after a star prune
+   fragment  literal | \c | ? | * | ** | [set] | [!set] | [^set]  (glob_of p = Some g;
+   a set may hold bytes, escaped bytes, ranges, a leading closing bracket, literal
+   dashes — everything wildmatch accepts except POSIX classes [:name:]), every text.  The abort codes and the fast-forward after a star prune
    nothing that could match. *)
 Theorem C49_dowild_sound_complete : forall p g t,
   glob_of p = Some g -> (wildmatch p t = true <-> Gmatch g t).
@@ -163,6 +164,14 @@ Example C49_fragment_example :
             wildmatch (bytes_of_string "a[!b-d]?\**.[ch]") (bytes_of_string "aez*foo.c") = true /\
             wildmatch (bytes_of_string "a[!b-d]?\**.[ch]") (bytes_of_string "acz*foo.c") = false.
 Proof. eexists. vm_compute. repeat split; reflexivity. Qed.
+
+Example C49_fragment_sets :
+  (exists g, glob_of (bytes_of_string "[]-]x[\]a-\c-][[a]") = Some g) /\
+  wildmatch (bytes_of_string "[]-]x[\]a-\c-][[a]") (bytes_of_string "]xb[") = true /\
+  wildmatch (bytes_of_string "[]-]x[\]a-\c-][[a]") (bytes_of_string "-x-a") = true /\
+  wildmatch (bytes_of_string "[]-]x[\]a-\c-][[a]") (bytes_of_string "axb[") = false /\
+  glob_of (bytes_of_string "[[:alpha:]]") = None.
+Proof. vm_compute. repeat split; try reflexivity. eexists; reflexivity. Qed.
 
 Example C49_names_example :
   names_case (Some (bytes_of_string "*.o
